@@ -54,15 +54,20 @@ type Input struct {
 	Shape  string  `json:"shape"`                   // [ptr_]struct | [ptr_]slice_{val,ptr} | [ptr_]array_{val,ptr}
 	Recs   []RecIn `json:"recs"`                    // the in-memory records (struct shapes: exactly one)
 	Shared []RecIn `json:"shared_bosses,omitempty"` // belongs-to records shared by several owners (RecIn.BossIx)
-	Seed   []Row   `json:"seed"`                    // rows present before the operation
-	Skip   bool    `json:"skip_hooks"`
-	TxMode string  `json:"tx_mode"` // default | outer | skipdefault
-	Fails  []int   `json:"fails"`   // hook invocations (0-based, counted over the whole operation) that return an error
-	Sets   []int   `json:"sets"`    // hook invocations at which the hook calls tx.Statement.SetColumn("Val", 1000+k)
-	Pay    int64   `json:"pay"`     // update payload for Val (update/updates/update_column(s))
-	PayVia string  `json:"pay_via"` // map_db (key "val") | map_field (key "Val") | struct
-	SetKey string  `json:"set_key"` // name the hooks pass to SetColumn: field ("Val") | db ("val")
-	Limit  int64   `json:"limit"`   // find: rows with tag <= Limit are selected
+	// Graph: a cyclic in-memory graph over the has-many Kids of the records:
+	//   keeper_cycle: every Kid points (belongs-to) to ONE shared Keeper (GraphKeeper) whose has-many Wards are those very Kids
+	//   owner_back:   every Kid points back (belongs-to OwnerT1) to the T1 record that owns it
+	Graph       string `json:"graph,omitempty"`
+	GraphKeeper *RecIn `json:"graph_keeper,omitempty"`
+	Seed        []Row  `json:"seed"` // rows present before the operation
+	Skip        bool   `json:"skip_hooks"`
+	TxMode      string `json:"tx_mode"` // default | outer | skipdefault
+	Fails       []int  `json:"fails"`   // hook invocations (0-based, counted over the whole operation) that return an error
+	Sets        []int  `json:"sets"`    // hook invocations at which the hook calls tx.Statement.SetColumn("Val", 1000+k)
+	Pay         int64  `json:"pay"`     // update payload for Val (update/updates/update_column(s))
+	PayVia      string `json:"pay_via"` // map_db (key "val") | map_field (key "Val") | struct
+	SetKey      string `json:"set_key"` // name the hooks pass to SetColumn: field ("Val") | db ("val")
+	Limit       int64  `json:"limit"`   // find: rows with tag <= Limit are selected
 	// FailKind: what a failing hook returns: "" = errors.New-style "E<k>"; otherwise "E<k>: %w" wrapping one
 	// of gorm's own sentinel errors: not_found | invalid_tx | missing_where | invalid_value | empty_slice | invalid_data
 	FailKind    string `json:"fail_kind,omitempty"`
@@ -211,7 +216,7 @@ func OpenWorld(dsn string, noReturning bool) *World {
 	return w
 }
 
-var tables = []string{"recs", "bosses", "kids", "pets"}
+var tables = []string{"recs", "bosses", "kids", "pets", "keepers"}
 
 func (w *World) dump() []Row {
 	out := []Row{}
@@ -257,6 +262,12 @@ func (w *World) reset(seed []Row) {
 // sharedBoss holds the in-memory shared belongs-to records of the case being built
 var sharedBoss []*Boss
 
+// cyclic graph of the case being built
+var (
+	graphMode   string
+	graphKeeper *Keeper
+)
+
 func setRec(v reflect.Value, r RecIn) {
 	v.FieldByName("ID").SetInt(r.ID)
 	v.FieldByName("Tag").SetInt(r.Tag)
@@ -274,6 +285,21 @@ func setRec(v reflect.Value, r RecIn) {
 			ks[i] = Kid{ID: k.ID, Tag: k.Tag, Val: k.Val}
 		}
 		f.Set(reflect.ValueOf(ks))
+		switch graphMode {
+		case "keeper_cycle":
+			for i := range ks {
+				ks[i].Keeper = graphKeeper
+				graphKeeper.Wards = append(graphKeeper.Wards, &ks[i])
+			}
+		case "owner_back":
+			if v.CanAddr() {
+				if owner, ok := v.Addr().Interface().(*T1); ok {
+					for i := range ks {
+						ks[i].OwnerT1 = owner
+					}
+				}
+			}
+		}
 	}
 	if f := v.FieldByName("Pets"); f.IsValid() && len(r.Pets) > 0 {
 		ps := make([]*Pet, len(r.Pets))
@@ -413,6 +439,10 @@ func (w *World) Run(in Input) (o Obs) {
 	sharedBoss = nil
 	for _, b := range in.Shared {
 		sharedBoss = append(sharedBoss, &Boss{ID: b.ID, Tag: b.Tag, Val: b.Val})
+	}
+	graphMode, graphKeeper = in.Graph, nil
+	if in.Graph == "keeper_cycle" && in.GraphKeeper != nil {
+		graphKeeper = &Keeper{ID: in.GraphKeeper.ID, Tag: in.GraphKeeper.Tag, Val: in.GraphKeeper.Val}
 	}
 	arg, mem := build(ti.T, in.Shape, in.Recs)
 
